@@ -371,9 +371,10 @@ class KnotVector(Intface_KnotVector):
         (Fraction(0, 1), Fraction(0, 1), Fraction(1, 2), Fraction(1, 1), Fraction(1, 1))
 
         """
-        self.shift(-self[0])
-        last = self[-1]
-        self.internal = ImmutableKnotVector(knoti / last for knoti in self)
+        umin, umax = self[0], self[-1]
+        length = umax - umin
+        vector = tuple((knoti - umin) / length for knoti in self)
+        self.internal = ImmutableKnotVector(vector)
         return self
 
     def insert(self, nodes: Tuple[float]) -> KnotVector:
